@@ -363,6 +363,8 @@ class Totality:
                 neg = True
             if ch[0] == "call":
                 descr = (ir.callee_name(ch[1]["fn"]) or "?").split("::")[-1]
+                if ir.is_negated_forward(ch[1]["fn"]):
+                    neg = not neg
             elif ch[0] == "rv" and ch[1]["r"] == "bin":
                 descr = "%s(%s,%s)" % (ch[1]["op"], panics._named_local(view, ch[1]["a"]),
                                        panics._named_local(view, ch[1]["b"]))
@@ -513,6 +515,42 @@ class Totality:
                 return l
         return None
 
+    def _value_chain(self, view, op, can_reach, site_block, depth=10):
+        """(root local, locals copied through) for the value an operand denotes at the site.  A link is followed
+        only through the one definition of a local that can reach the site, and only when nothing else that can
+        reach the site writes that local (so the link still holds at the site)."""
+        copied = []
+        while depth > 0:
+            depth -= 1
+            if op.get("o") not in ("copy", "move"):
+                return None, copied
+            l = op["l"]
+            if view.is_arg(l):
+                return l, copied
+            defs = [d for d in view.defs.get(l, []) if d[0] in can_reach]
+            if len(defs) != 1 or defs[0][1] == "term":
+                return l, copied
+            d = defs[0]
+            others = [k for k in self._kill_blocks(view, l)
+                      if (k[1] if isinstance(k, tuple) else k) in can_reach and k != d[0]
+                      and not (isinstance(k, tuple) and k[1] == site_block)]
+            n_in_block = sum(1 for st_ in view.blocks[d[0]]["stmts"] if st_["s"] == "assign" and st_["pl"]["l"] == l)
+            if others or n_in_block != 1:
+                return l, copied
+            rv = d[2]["rv"]
+            if d[2]["pl"]["p"]:
+                return l, copied
+            if rv["r"] == "use" and rv["a"].get("o") in ("copy", "move"):
+                copied.append((l, d[0]))
+                op = {"o": "copy", "l": rv["a"]["l"], "p": []}
+            elif rv["r"] in ("ref", "rawptr"):
+                op = {"o": "copy", "l": rv["pl"]["l"], "p": []}
+            elif rv["r"] == "cast" and rv["kind"].startswith("PointerCoercion"):
+                op = rv["a"]
+            else:
+                return l, copied
+        return None, copied
+
     ZERO_TESTS = {
         "crate::cmp::<impl crate::Uint<BITS, LIMBS>>::is_zero": ("unary", True),
         "crate::cmp::<impl crate::Uint<BITS, LIMBS>>::const_is_zero": ("unary", True),
@@ -551,17 +589,48 @@ class Totality:
     def nonzero_guarded(self, view, site_block, op):
         """A dominating edge establishes that the Uint (or integer) value denoted by op is
         non-zero, and the value is not reassigned afterwards."""
-        root = self._value_root(view, op)
+        can_reach, stk = set(), [site_block]
+        while stk:
+            x = stk.pop()
+            if x in can_reach:
+                continue
+            can_reach.add(x)
+            stk.extend(y for y in view.preds.get(x, []) if y in view.reachable)
+        root, copied = self._value_chain(view, op, can_reach, site_block)
         if root is None:
             return None
-        # the root must not be written between guard and use: require it to be a never-assigned
-        # parameter or a single-assignment local whose address is not taken mutably before the site
-        defs = view.defs.get(root, [])
-        if view.is_arg(root):
-            if any(not (d[1] != "term" and d[2]["pl"]["p"]) for d in defs):
+        # the root must not be written on any path from the guard edge to the use: kill points are assignments to
+        # the root (whole or part), uses of `&mut root`, and calls that write it; a kill is harmless when it
+        # cannot lie between the edge and the site (checked per candidate edge below)
+        kills = self._kill_blocks(view, root)
+        reach_memo = {}
+
+        def groot(x, gb):
+            """root of a guard operand, resolved with the same flow-aware chain as the site operand"""
+            if x.get("o") not in ("copy", "move"):
                 return None
-        elif len(defs) != 1:
-            return None
+            if gb not in reach_memo:
+                cr, stk2 = set(), [gb]
+                while stk2:
+                    y = stk2.pop()
+                    if y in cr:
+                        continue
+                    cr.add(y)
+                    stk2.extend(z for z in view.preds.get(y, []) if z in view.reachable)
+                reach_memo[gb] = cr
+            return self._value_chain(view, x, reach_memo[gb], gb)[0]
+        root_changes_before_site = False
+        if copied:
+            # the tested local and the used local are different variables related by a copy.  When the copy is made
+            # before the test, the root must not change at all before the site (apart from its one initialisation)
+            eff = set(kills)
+            adefs = [d for d in view.defs.get(root, []) if d[1] == "term" or not d[2]["pl"]["p"]]
+            if not view.is_arg(root) and len(adefs) == 1:
+                eff.discard(adefs[0][0] if adefs[0][1] != "term" else ("after", adefs[0][0]))
+            for k in eff:
+                kb = k[1] if isinstance(k, tuple) else k
+                if kb in can_reach and not (isinstance(k, tuple) and kb == site_block):
+                    root_changes_before_site = True
         for b in view.dom.get(site_block, ()):
             t = view.blocks[b]["term"]
             if t["t"] != "switch":
@@ -578,12 +647,14 @@ class Totality:
                 if spec is None:
                     continue
                 kind, truth_means_zero = spec
+                if ir.is_negated_forward(ct["fn"]):
+                    truth_means_zero = not truth_means_zero   # `a != b` resolved to the eq it forwards to
                 if kind == "unary":
-                    if self._value_root(view, ct["args"][0]) != root:
+                    if groot(ct["args"][0], b) != root:
                         continue
                 else:
                     a, c = ct["args"][0], ct["args"][1]
-                    ra, rc = self._value_root(view, a), self._value_root(view, c)
+                    ra, rc = groot(a, b), groot(c, b)
                     za, zc = self._const_zero_arg(view, a), self._const_zero_arg(view, c)
                     if not ((ra == root and zc) or (rc == root and za)):
                         continue
@@ -591,8 +662,8 @@ class Totality:
                 # a mutation of root between the test and the site would invalidate the guard
             elif ch[0] == "rv" and ch[1]["r"] == "bin" and ch[1]["op"] in ("Eq", "Ne"):
                 rv = ch[1]
-                ra = self._value_root(view, rv["a"]) if rv["a"].get("o") != "const" else None
-                rb = self._value_root(view, rv["b"]) if rv["b"].get("o") != "const" else None
+                ra = groot(rv["a"], b) if rv["a"].get("o") != "const" else None
+                rb = groot(rv["b"], b) if rv["b"].get("o") != "const" else None
                 ca = view.const_of_operand(rv["a"])
                 cb = view.const_of_operand(rv["b"])
                 if not ((ra == root and cb == 0) or (rb == root and ca == 0)):
@@ -606,20 +677,121 @@ class Totality:
                 if t["otherwise"] == s:
                     truths |= ({True, False} - {bool(v) for v, _ in t["targets"]})
                 if len(truths) == 1 and truths.pop() != zero_truth and view.edge_dominates(b, s, site_block):
+                    region = self._region(view, b, s, site_block)
+                    if self._killed_between(kills, region, site_block):
+                        continue
+                    if root_changes_before_site and any(pb not in region for _x, pb in copied):
+                        continue   # a copy taken before the test of a variable that changes: the test says nothing
                     return "dominated by non-zero test at %s" % view.where(b)
         return None
+
+    @staticmethod
+    def _kill_blocks(view, root):
+        """Points that may write local `root`: an assignment to it (also through a projection), a call whose
+        destination it is, and every use of a mutable reference derived from `&mut root` (a call that receives it:
+        the write happens during that call; an assignment through it).  A mutable borrow that is stored anywhere
+        else kills where it is created.  Entries: block (kill inside the block) or ("after", block) (kill when the
+        call that terminates the block returns)."""
+        out = set()
+        derived = {}   # ref local -> block where the borrow chain started
+        changed = True
+        while changed:
+            changed = False
+            for bi in view.reachable:
+                for st_ in view.blocks[bi]["stmts"]:
+                    if st_["s"] != "assign":
+                        continue
+                    rv, dl = st_["rv"], st_["pl"]["l"]
+                    src = None
+                    if rv["r"] in ("ref", "rawptr") and rv.get("m") == "mut":
+                        if rv["pl"]["l"] == root and "deref" not in rv["pl"]["p"]:
+                            src = bi
+                        elif rv["pl"]["l"] in derived and rv["pl"]["p"][:1] == ["deref"]:
+                            src = derived[rv["pl"]["l"]]
+                    elif rv["r"] == "use" and rv["a"].get("o") in ("copy", "move") and rv["a"]["l"] in derived and not rv["a"]["p"]:
+                        src = derived[rv["a"]["l"]]
+                    elif rv["r"] == "cast" and rv["a"].get("o") in ("copy", "move") and rv["a"]["l"] in derived and not rv["a"]["p"]:
+                        src = derived[rv["a"]["l"]]
+                    if src is not None:
+                        if st_["pl"]["p"]:
+                            out.add(src)      # stored into a place we do not follow
+                        elif dl not in derived:
+                            derived[dl] = src
+                            changed = True
+        for bi in view.reachable:
+            blk = view.blocks[bi]
+            for st_ in blk["stmts"]:
+                if st_["s"] != "assign":
+                    continue
+                if st_["pl"]["l"] == root:
+                    out.add(bi)
+                if st_["pl"]["l"] in derived and st_["pl"]["p"][:1] == ["deref"]:
+                    out.add(bi)
+                rv = st_["rv"]
+                if rv["r"] == "agg" and any(o.get("o") in ("copy", "move") and o["l"] in derived for o in rv.get("ops", [])):
+                    out.add(derived[next(o["l"] for o in rv["ops"] if o.get("o") in ("copy", "move") and o["l"] in derived)])
+            t = blk["term"]
+            if t["t"] == "call":
+                if t["dest"]["l"] == root:
+                    out.add(("after", bi))
+                if any(a.get("o") in ("copy", "move") and a["l"] in derived for a in t["args"]):
+                    out.add(("after", bi))
+        return out
+
+    @staticmethod
+    def _region(view, gb, gs, site_block):
+        """Blocks on a path guard edge (gb -> gs) ... site that does not re-take the guard edge."""
+        fwd, stk = set(), [gs]
+        while stk:
+            x = stk.pop()
+            if x in fwd:
+                continue
+            fwd.add(x)
+            for y in view.succ.get(x, []):
+                if not (x == gb and y == gs):
+                    stk.append(y)
+        bwd, stk = set(), [site_block]
+        while stk:
+            x = stk.pop()
+            if x in bwd:
+                continue
+            bwd.add(x)
+            for y in view.preds.get(x, []):
+                if not (y == gb and x == gs) and y in view.reachable:
+                    stk.append(y)
+        return fwd & bwd
+
+    @staticmethod
+    def _killed_between(kills, region, site_block):
+        for k in kills:
+            if isinstance(k, tuple):
+                # a call in block k[1] writes the root when it returns: harmful if the site is reachable afterwards
+                if k[1] in region and k[1] != site_block:
+                    return True
+            elif k in region:
+                return True
+        return False
 
     def _const_zero_arg(self, view, op):
         """Argument of eq/ne is (a reference to) the constant ZERO."""
         if op.get("o") == "const":
+            if op.get("c") == "promoted":
+                # `&Uint::ZERO` promoted to a constant: the promoted body is `_1 = const ZERO; _0 = &_1`
+                proms = view.body.get("promoted") or []
+                if op["i"] < len(proms):
+                    consts = [o for blk in proms[op["i"]]["blocks"] for o in ir.operands_of_block(blk) if o.get("o") == "const"]
+                    return bool(consts) and all(c.get("c") == "uneval" and c["def"].endswith("::ZERO") for c in consts)
+                return False
             return bool(op.get("c") == "uneval" and op["def"].endswith("::ZERO"))
+        if op["p"] == ["deref"]:
+            op = {"o": "copy", "l": op["l"], "p": []}
         d = view.single_def(op["l"]) if not op["p"] else None
         if d is None or d[1] == "term":
             return False
         rv = d[2]["rv"]
         if rv["r"] == "use":
             return self._const_zero_arg(view, rv["a"])
-        if rv["r"] == "ref" and not rv["pl"]["p"]:
+        if rv["r"] == "ref" and rv["pl"]["p"] in ([], ["deref"]):
             return self._const_zero_arg(view, {"o": "copy", "l": rv["pl"]["l"], "p": []})
         return False
 
@@ -1033,6 +1205,8 @@ def dominating_conditions(view, site_block):
             neg = True
         if ch[0] == "call":
             descr = (ir.callee_name(ch[1]["fn"]) or "?").split("::")[-1]
+            if ir.is_negated_forward(ch[1]["fn"]):
+                neg = not neg
         elif ch[0] == "rv" and ch[1]["r"] == "bin":
             descr = "%s(%s,%s)" % (ch[1]["op"], panics._named_local(view, ch[1]["a"]),
                                    panics._named_local(view, ch[1]["b"]))
